@@ -33,10 +33,14 @@ pub enum RunResult {
 
 /// one run under catch_unwind; attributes panics by the engine-call breadcrumb
 pub fn guarded_execute(ctx: &mut Ctx, eq: &mut EqTable, start: &Start, src: &mut dyn Source, trace: &mut Vec<String>, run: u64) -> (RunResult, Option<RunOutcome>) {
+    guarded_execute_from(ctx, eq, start, None, src, trace, run, &mut vec![])
+}
+
+pub fn guarded_execute_from(ctx: &mut Ctx, eq: &mut EqTable, start: &Start, snapshot: Option<crate::world::World>, src: &mut dyn Source, trace: &mut Vec<String>, run: u64, candidates: &mut Vec<Candidate>) -> (RunResult, Option<RunOutcome>) {
     crumb_take();
     last_panic_take();
     set_quiet(true);
-    let r = catch_unwind(AssertUnwindSafe(|| execute(ctx, eq, start, src, trace)));
+    let r = catch_unwind(AssertUnwindSafe(|| execute_from(ctx, eq, start, snapshot, src, trace, candidates)));
     set_quiet(false);
     let own_prop = |mask: PropMask, own: PropMask| -> u32 { (1..=20).find(|n| mask & own & p(*n) != 0).unwrap_or(0) };
     match r {
@@ -118,10 +122,35 @@ pub struct BatchResult {
     pub truncated: bool,
 }
 
+/// a rare state found by an earlier generation, with the operations that reproduce it
+pub struct CorpusEntry {
+    /// cumulative sampling weight up to and including this entry
+    pub cum_weight: u64,
+    pub start: Start,
+    pub ops: Vec<String>,
+    pub world: crate::world::World,
+}
+
 pub fn run_one(ctx: &mut Ctx, eq: &mut EqTable, cfg: &BatchConfig, idx: u64, sample: bool) -> (RunResult, Option<Value>, u64) {
+    let (a, b, c, _) = run_one_guided(ctx, eq, cfg, idx, sample, &[]);
+    (a, b, c)
+}
+
+pub fn run_one_guided(ctx: &mut Ctx, eq: &mut EqTable, cfg: &BatchConfig, idx: u64, sample: bool, corpus: &[CorpusEntry]) -> (RunResult, Option<Value>, u64, (Start, Vec<Candidate>)) {
     let mut rng = Rng::new(mix_seed(cfg.seed, idx));
     let faults = idx % 4 != 0;
     let mut sw = Swarm::draw(&mut rng, &cfg.mix, faults);
+    // coverage-guided part: half of the runs of later generations continue from a rare state
+    let from_corpus = rng.chance(0.5);
+    let corpus_pick = rng.next();
+    let entry = if ctx.guided && from_corpus && !corpus.is_empty() {
+        let total = corpus[corpus.len() - 1].cum_weight;
+        let r = corpus_pick % total;
+        let i = corpus.partition_point(|e| e.cum_weight <= r);
+        Some(&corpus[i.min(corpus.len() - 1)])
+    } else {
+        None
+    };
     if cfg.prop == 9 {
         // systematic part of the setup exploration: runs 0..216,480 give Gold every possible first
         // row, the next 216,481 runs give Silver every possible first row (rabbits first in the
@@ -132,15 +161,29 @@ pub fn run_one(ctx: &mut Ctx, eq: &mut EqTable, cfg: &BatchConfig, idx: u64, sam
             sw.setup_policy[1] = SetupPolicy::Scripted(first_row(idx - FIRST_ROWS));
         }
     }
-    let start = generate(&mut rng, sw.family);
+    let generated = generate(&mut rng, sw.family);
     ctx.stats.inc(if faults { "runs.fault_injecting_config" } else { "runs.fault_free_config" });
-    ctx.stats.inc(&format!("family.{}", sw.family.name()));
     let fam = sw.family;
     let pol = sw.policy;
+    let (start, mut trace, snapshot) = match entry {
+        Some(e) => {
+            ctx.stats.inc("runs.continued_from_a_rare_state");
+            // stay close to the rare state
+            sw.cap = sw.cap.min(60);
+            (e.start.clone(), e.ops.clone(), Some(e.world.clone()))
+        }
+        None => {
+            ctx.stats.inc(&format!("family.{}", sw.family.name()));
+            (generated, vec![], None)
+        }
+    };
     let mut src = RandomSource::new(rng, sw);
-    let mut trace = vec![];
+    if let Some(w) = &snapshot {
+        src.remember_lineage(w);
+    }
     ctx.digest = 0;
-    let (res, _out) = guarded_execute(ctx, eq, &start, &mut src, &mut trace, idx);
+    let mut candidates = vec![];
+    let (res, _out) = guarded_execute_from(ctx, eq, &start, snapshot, &mut src, &mut trace, idx, &mut candidates);
     ctx.stats.add("ops", trace.len() as u64);
     let sample_v = if sample {
         Some(json!({
@@ -152,14 +195,118 @@ pub fn run_one(ctx: &mut Ctx, eq: &mut EqTable, cfg: &BatchConfig, idx: u64, sam
     } else {
         None
     };
-    (res, sample_v, ctx.digest)
+    (res, sample_v, ctx.digest, (start, candidates))
 }
 
+/// properties whose game batches use coverage-guided generations
+fn guided_for(prop: u32) -> bool {
+    matches!(prop, 1 | 2 | 4 | 5 | 6 | 7 | 8 | 10 | 12 | 13 | 14 | 19)
+}
+
+struct WorkerState {
+    ctx: Ctx,
+    eq: EqTable,
+    failures: Vec<Failure>,
+    harness: Option<String>,
+    done: u64,
+    foreign: u64,
+    samples: Vec<(u64, Value)>,
+    digests: Vec<(u64, u64)>,
+    truncated: bool,
+}
+
+/// Runs are executed in generations.  Within a generation every run is independent and sees the
+/// same frozen corpus of rare states; after it, the states with abstract features not seen before
+/// are added to the corpus in run-index order.  The outcome therefore does not depend on the
+/// number of workers or on their scheduling.
 pub fn run_batch(cfg: &BatchConfig) -> BatchResult {
     let t0 = Instant::now();
-    let next = AtomicU64::new(0);
     let stop_at = AtomicU64::new(u64::MAX);
-    let merged = Mutex::new(BatchResult {
+    let want_digests = cfg.digests.is_some();
+    let guided = guided_for(cfg.prop) && cfg.own != 0 && cfg.own != ALL_PROPS;
+    let gen_size: u64 = if !guided { cfg.runs.max(1) } else { 20_000 };
+    let workers = cfg.workers.max(1);
+    let mut states: Vec<WorkerState> = (0..workers)
+        .map(|_| {
+            let mut ctx = Ctx::new(cfg.own);
+            ctx.dfs_budget = if cfg.tier == "thorough" { 4000 } else { 1000 };
+            ctx.guided = guided;
+            WorkerState { ctx, eq: EqTable::default(), failures: vec![], harness: None, done: 0, foreign: 0, samples: vec![], digests: vec![], truncated: false }
+        })
+        .collect();
+    let mut corpus: Vec<CorpusEntry> = vec![];
+    let mut known = FpSet::default();
+    let mut gen_start = 0u64;
+    let mut generations = 0u64;
+    while gen_start < cfg.runs && stop_at.load(Ordering::SeqCst) == u64::MAX {
+        let gen_end = (gen_start + gen_size).min(cfg.runs);
+        let next = AtomicU64::new(gen_start);
+        let found: Mutex<Vec<(u64, Start, Vec<Candidate>)>> = Mutex::new(vec![]);
+        let known_arc = std::sync::Arc::new(known.clone());
+        let corpus_ref = &corpus;
+        std::thread::scope(|s| {
+            for st in states.iter_mut() {
+                let known_arc = known_arc.clone();
+                let next = &next;
+                let stop_at = &stop_at;
+                let found = &found;
+                s.spawn(move || {
+                    st.ctx.known_features = known_arc;
+                    loop {
+                        let idx = next.fetch_add(1, Ordering::SeqCst);
+                        if idx >= gen_end || idx > stop_at.load(Ordering::SeqCst) {
+                            break;
+                        }
+                        if t0.elapsed().as_secs_f64() > cfg.wall_cap_s {
+                            st.truncated = true;
+                            break;
+                        }
+                        let (res, sample, dg, (start, cands)) = run_one_guided(&mut st.ctx, &mut st.eq, cfg, idx, idx < 3, corpus_ref);
+                        st.done += 1;
+                        if let Some(sv) = sample {
+                            st.samples.push((idx, sv));
+                        }
+                        if want_digests {
+                            st.digests.push((idx, dg));
+                        }
+                        if !cands.is_empty() {
+                            found.lock().unwrap().push((idx, start, cands));
+                        }
+                        match res {
+                            RunResult::Clean => {}
+                            RunResult::Foreign => st.foreign += 1,
+                            RunResult::Fail(f) => {
+                                // keep scanning lower indices only: the reported failure is the lowest
+                                stop_at.fetch_min(idx, Ordering::SeqCst);
+                                st.failures.push(f);
+                            }
+                            RunResult::Harness(m) => {
+                                stop_at.fetch_min(idx, Ordering::SeqCst);
+                                st.harness = Some(format!("run {}: {}", idx, m));
+                            }
+                        }
+                    }
+                });
+            }
+        });
+        // merge the new rare states in run-index order (deterministic)
+        let mut found = found.into_inner().unwrap();
+        found.sort_by_key(|x| x.0);
+        for (_, start, cands) in found {
+            for (key, ops, world, weight) in cands {
+                if corpus.len() < 6000 && known.insert(key) {
+                    let cum = corpus.last().map_or(0, |e| e.cum_weight) + weight as u64;
+                    corpus.push(CorpusEntry { cum_weight: cum, start: start.clone(), ops, world });
+                }
+            }
+        }
+        generations += 1;
+        gen_start = gen_end;
+        if states.iter().any(|s| s.truncated) {
+            break;
+        }
+    }
+    let mut r = BatchResult {
         stats: Stats::default(),
         evals: 0,
         distinct: FpSet::default(),
@@ -173,80 +320,36 @@ pub fn run_batch(cfg: &BatchConfig) -> BatchResult {
         digests: BTreeMap::new(),
         wall_s: 0.0,
         truncated: false,
-    });
-    let want_digests = cfg.digests.is_some();
-    std::thread::scope(|s| {
-        for _ in 0..cfg.workers.max(1) {
-            s.spawn(|| {
-                let mut ctx = Ctx::new(cfg.own);
-                ctx.dfs_budget = if cfg.tier == "thorough" { 4000 } else { 1000 };
-                let mut eq = EqTable::default();
-                let mut failures = vec![];
-                let mut harness = None;
-                let mut done = 0u64;
-                let mut foreign = 0u64;
-                let mut samples = vec![];
-                let mut digests = vec![];
-                let mut truncated = false;
-                loop {
-                    let idx = next.fetch_add(1, Ordering::SeqCst);
-                    if idx >= cfg.runs || idx > stop_at.load(Ordering::SeqCst) {
-                        break;
-                    }
-                    if t0.elapsed().as_secs_f64() > cfg.wall_cap_s {
-                        truncated = true;
-                        break;
-                    }
-                    let (res, sample, dg) = run_one(&mut ctx, &mut eq, cfg, idx, idx < 3);
-                    done += 1;
-                    if let Some(sv) = sample {
-                        samples.push((idx, sv));
-                    }
-                    if want_digests {
-                        digests.push((idx, dg));
-                    }
-                    match res {
-                        RunResult::Clean => {}
-                        RunResult::Foreign => foreign += 1,
-                        RunResult::Fail(f) => {
-                            // keep scanning lower indices only: the reported failure is the lowest
-                            stop_at.fetch_min(idx, Ordering::SeqCst);
-                            failures.push(f);
-                        }
-                        RunResult::Harness(m) => {
-                            stop_at.fetch_min(idx, Ordering::SeqCst);
-                            harness = Some(format!("run {}: {}", idx, m));
-                        }
-                    }
-                }
-                let mut g = merged.lock().unwrap();
-                g.stats.merge(&ctx.stats);
-                g.evals += ctx.evals;
-                for x in ctx.distinct {
-                    g.distinct.insert(x);
-                }
-                for x in ctx.states {
-                    g.states.insert(x);
-                }
-                g.capped |= ctx.capped;
-                g.failures.extend(failures);
-                if g.harness.is_none() {
-                    g.harness = harness;
-                }
-                g.runs_done += done;
-                g.foreign += foreign;
-                for (i, sv) in samples {
-                    let _ = i;
-                    g.samples.push(sv);
-                }
-                for (i, d) in digests {
-                    g.digests.insert(i, d);
-                }
-                g.truncated |= truncated;
-            });
+    };
+    for st in states {
+        r.stats.merge(&st.ctx.stats);
+        r.evals += st.ctx.evals;
+        for x in st.ctx.distinct {
+            r.distinct.insert(x);
         }
-    });
-    let mut r = merged.into_inner().unwrap();
+        for x in st.ctx.states {
+            r.states.insert(x);
+        }
+        r.capped |= st.ctx.capped;
+        r.failures.extend(st.failures);
+        if r.harness.is_none() {
+            r.harness = st.harness;
+        }
+        r.runs_done += st.done;
+        r.foreign += st.foreign;
+        for (_, sv) in st.samples {
+            r.samples.push(sv);
+        }
+        for (i, d) in st.digests {
+            r.digests.insert(i, d);
+        }
+        r.truncated |= st.truncated;
+    }
+    if guided {
+        r.stats.add("guided.generations", generations);
+        r.stats.add("guided.rare_states_in_corpus", corpus.len() as u64);
+        r.stats.add("guided.distinct_feature_keys", known.len() as u64);
+    }
     r.failures.sort_by_key(|f| f.run);
     r.samples.sort_by_key(|v| v["run"].as_u64().unwrap_or(0));
     r.wall_s = t0.elapsed().as_secs_f64();
